@@ -132,9 +132,9 @@ Proof.
   intros P1 P2 Hl Ha. unfold metric_from_phantom, i16_op, i16 in *. rewrite P1, P2.
   replace (xmin - (xmin - lsb)) with lsb by lia. replace (xmin - lsb + aw - (xmin - lsb)) with aw by lia.
   assert (A : (-32768 <=? lsb) && (lsb <=? 32767) = true) by (apply andb_true_iff; split; apply Z.leb_le; lia).
-  assert (B : (-32768 <=? aw) && (aw <=? 32767) = true) by (apply andb_true_iff; split; apply Z.leb_le; lia).
-  rewrite A. cbn [bind]. rewrite B. cbn [bind].
-  destruct (aw <? 0) eqn:C; [apply Z.ltb_lt in C; lia|reflexivity].
+  cbv zeta. rewrite A.
+  replace ((aw <? 0) || (65535 <? aw)) with false; [reflexivity|].
+  symmetry. apply orb_false_iff. split; [apply Z.ltb_ge|apply Z.ltb_ge]; lia.
 Qed.
 
 (* THE default-instance theorem for one glyph, without HVAR: outline (points or component offsets)
